@@ -565,4 +565,332 @@ theorem lower_keeps_fn (f : Func) (hsp : f.hasSpecial = true) (hp : ∀ x ∈ f.
   unfold entryToks
   split <;> simp [ht]
 
+/-! ### nothing is lost on the complete machine (plans without block alternates) -/
+
+theorem mem_chain (fl : List (List Tok × Nat)) : ∀ (first : Bool) (e : List Tok × Nat) (t : Tok), e ∈ fl → t ∈ e.1 →
+    t ∈ resolveBodies.chain fl first := by
+  induction fl with
+  | nil => intro _ _ _ h; cases h
+  | cons a fl ih =>
+    intro first e t he ht
+    obtain ⟨body, flg⟩ := a
+    rcases List.mem_cons.mp he with rfl | he
+    · cases first <;> simp [resolveBodies.chain, ht]
+    · have := ih false e t he ht
+      cases first <;> simp [resolveBodies.chain, this]
+
+theorem mem_chainToks (fl : List (List Tok × Nat)) (e : List Tok × Nat) (t : Tok) (he : e ∈ fl) (ht : t ∈ e.1) : t ∈ chainToks fl := by
+  unfold chainToks
+  exact List.mem_append_left _ (mem_chain fl true e t he ht)
+
+theorem mem_endAfter (f : Fr) (t : Tok) (h : t ∈ f.afterA ∨ ∃ e ∈ f.afterFl, t ∈ e.1) : t ∈ endAfter f := by
+  unfold endAfter
+  rcases h with h | ⟨e, he, ht⟩
+  · exact List.mem_append_right _ h
+  · exact List.mem_append_left _ (mem_chainToks _ e t he ht)
+
+/-- what parking a branch's body does to the frames, by block id -/
+theorem parkAllF_spec (topId : Nat) (e : List Tok × Nat) : ∀ (ts : List Nat) (fr : List Fr), topId < fr.length →
+    (parkAllF fr topId e ts).length = fr.length
+    ∧ (∀ k, (frAt (parkAllF fr topId e ts) k).ifExit = (frAt fr k).ifExit ∧ (frAt (parkAllF fr topId e ts) k).exitB = (frAt fr k).exitB
+        ∧ (frAt (parkAllF fr topId e ts) k).afterA = (frAt fr k).afterA)
+    ∧ (∀ k e', e' ∈ (frAt fr k).afterFl → e' ∈ (frAt (parkAllF fr topId e ts) k).afterFl)
+    ∧ (∀ t ∈ ts, e ∈ (frAt (parkAllF fr topId e ts) (topId - t)).afterFl) := by
+  intro ts
+  induction ts with
+  | nil => intro fr _; exact ⟨rfl, fun _ => ⟨rfl, rfl, rfl⟩, fun _ _ h => h, fun _ h => by cases h⟩
+  | cons d ts ih =>
+    intro fr hl
+    have hk : topId - d < fr.length := by omega
+    have hl' : topId < (parkFr fr (topId - d) e).length := by rw [parkFr_length]; exact hl
+    obtain ⟨a1, a2, a3, a4⟩ := ih (parkFr fr (topId - d) e) hl'
+    have step : ∀ k, frAt (parkFr fr (topId - d) e) k
+        = if k = topId - d then { frAt fr (topId - d) with afterFl := (frAt fr (topId - d)).afterFl ++ [e] } else frAt fr k :=
+      fun k => frAt_parkFr fr (topId - d) k e hk
+    refine ⟨a1.trans (parkFr_length _ _ _), fun k => ?_, fun k e' he' => ?_, fun t ht => ?_⟩
+    · obtain ⟨b1, b2, b3⟩ := a2 k
+      refine ⟨b1.trans ?_, b2.trans ?_, b3.trans ?_⟩ <;> rw [step k] <;> by_cases hkk : k = topId - d <;> simp [hkk]
+    · apply a3 k e'
+      rw [step k]
+      by_cases hkk : k = topId - d
+      · subst hkk; simp [he']
+      · simpa [hkk] using he'
+    · rcases List.mem_cons.mp ht with rfl | ht
+      · apply a3
+        rw [step]; simp
+      · exact a4 t ht
+
+theorem dropLast_eq_rev (fr : List Fr) : fr.dropLast = (fr.reverse.tail).reverse := by
+  rw [List.tail_reverse, List.reverse_reverse]
+
+theorem frAt_succ (fr : List Fr) (j : Nat) : frAt fr (j + 1) = (fr.reverse.tail[j]?).getD {} := by
+  unfold frAt
+  rw [List.getElem?_tail]
+
+theorem frAt_mem_dropLast (fr : List Fr) (k : Nat) (h1 : 1 ≤ k) (h2 : k < fr.length) : frAt fr k ∈ fr.dropLast := by
+  obtain ⟨j, rfl⟩ : ∃ j, k = j + 1 := ⟨k - 1, by omega⟩
+  rw [frAt_succ, dropLast_eq_rev, List.mem_reverse]
+  have hl : j < fr.reverse.tail.length := by simp; omega
+  rw [List.getElem?_eq_getElem hl]
+  exact List.getElem_mem _
+
+theorem mem_dropLast_frAt (fr : List Fr) (f : Fr) (h : f ∈ fr.dropLast) : ∃ k, 1 ≤ k ∧ k < fr.length ∧ frAt fr k = f := by
+  rw [dropLast_eq_rev, List.mem_reverse] at h
+  obtain ⟨j, hj, rfl⟩ := List.getElem_of_mem h
+  have hlen : fr.reverse.tail.length = fr.length - 1 := by simp
+  refine ⟨j + 1, by omega, by omega, ?_⟩
+  rw [frAt_succ, List.getElem?_eq_getElem hj]
+  rfl
+
+
+def depthNext (k : Kind) (d : Nat) : Nat :=
+  match k with
+  | .block | .loop | .if_ => d + 1
+  | .end_ => d - 1
+  | _ => d
+
+/-- what the encoded function must contain of one instruction's instrumentation, at nesting depth `d` (number of open constructs): its
+    `before` code; on a construct its block-entry, block-exit and semantic-after code; on a branch its semantic-after code — unless every
+    target of the branch is the function's own label and the branch is not a conditional one (finding F15) -/
+def keptOne (d : Nat) (x : Instr) (out : List Tok) : Prop :=
+  (∀ t ∈ x.before, t ∈ out)
+  ∧ (x.kind.isBlockStyle = true → ∀ t, t ∈ x.blockEntry ∨ t ∈ x.blockExit ∨ t ∈ x.semAfter → t ∈ out)
+  ∧ (flaggedBranch x = true → ((∃ n, x.kind = .brIf n) ∨ ∃ t ∈ branchTargets x.kind, t < d) → ∀ t ∈ x.semAfter, t ∈ out)
+
+def KeptAll : Nat → List Instr → List Tok → Prop
+  | _, [], _ => True
+  | d, x :: xs, out => keptOne d x out ∧ KeptAll (depthNext x.kind d) xs out
+
+theorem keptOne_mono {d : Nat} {x : Instr} {o o' : List Tok} (h : keptOne d x o) (hs : ∀ t ∈ o, t ∈ o') : keptOne d x o' :=
+  ⟨fun t ht => hs t (h.1 t ht), fun hb t ht => hs t (h.2.1 hb t ht), fun hf hc t ht => hs t (h.2.2 hf hc t ht)⟩
+
+theorem KeptAll_mono : ∀ (xs : List Instr) (d : Nat) (o o' : List Tok), KeptAll d xs o → (∀ t ∈ o, t ∈ o') → KeptAll d xs o' := by
+  intro xs
+  induction xs with
+  | nil => intro _ _ _ _ _; trivial
+  | cons x xs ih => intro d o o' h hs; exact ⟨keptOne_mono h.1 hs, ih _ o o' h.2 hs⟩
+
+/-- without a block alternate and outside a removed region, the extended machine steps like the plain one -/
+theorem specStepA_plain (fr : List Fr) (x : Instr) (hba : x.blockAlt = none) :
+    specStepA fr none x = (specStep fr x).map (fun r => (r.1, none, r.2.1, none, r.2.2)) := by
+  cases hk : x.kind with
+  | block | loop | if_ => simp [specStepA, specStep, hk, hba]
+  | else_ =>
+    cases fr with
+    | nil => simp [specStepA, specStep, hk]
+    | cons top rfr =>
+      cases rfr with
+      | nil => simp [specStepA, specStep, hk]
+      | cons below rest => simp [specStepA, specStep, hk, hba]
+  | end_ =>
+    cases fr with
+    | nil => simp [specStepA, specStep, hk]
+    | cons top rfr => simp [specStepA, specStep, hk]
+  | br _ | brIf _ | brTable _ _ | exitLike | other => simp [specStepA, specStep, hk]
+
+
+/-- **every probe the complete machine is given comes out**, for plans without block alternates: what waits in the frames (the function
+    body's own frame excepted for code behind its `end`), and of the instructions still to come everything `keptOne` lists -/
+theorem specRunF_keeps (last : Nat) (E X : List Tok) : ∀ (xs : List Instr) (idx : Nat) (fr : List Fr) (nl : Nat) (out : List Tok) (nlf : Nat),
+    specRunF last E X idx fr none nl xs = some (out, nlf) → (∀ x ∈ xs, x.blockAlt = none) → idx + xs.length ≤ last + 1 →
+    fr ≠ [] ∨ xs = [] →
+    (∀ k, k < fr.length → ∀ t, t ∈ (frAt fr k).ifExit ∨ t ∈ (frAt fr k).exitB → t ∈ out)
+    ∧ (∀ k, 1 ≤ k → k < fr.length → ∀ t, (t ∈ (frAt fr k).afterA ∨ ∃ e ∈ (frAt fr k).afterFl, t ∈ e.1) → t ∈ out)
+    ∧ KeptAll (fr.length - 1) xs out := by
+  intro xs
+  induction xs with
+  | nil =>
+    intro idx fr nl out nlf hs _ _ _
+    simp only [specRunF] at hs
+    split at hs
+    · rename_i he
+      have : fr = [] := List.isEmpty_iff.mp he
+      subst this
+      exact ⟨fun k hk => by simp at hk, fun k _ hk => by simp at hk, trivial⟩
+    · cases hs
+  | cons x xs ih =>
+    intro idx fr nl out nlf hs hna hl hfr
+    have hfr' : fr ≠ [] := by rcases hfr with h | h; exact h; cases h
+    have hn1 : 1 ≤ fr.length := List.length_pos_iff.mpr hfr'
+    have hbax : x.blockAlt = none := hna x (List.mem_cons_self ..)
+    simp only [specRunF] at hs
+    cases h1 : specStepF fr none nl x with
+    | none => simp [h1] at hs
+    | some r =>
+      obtain ⟨fr', del', nl', B, alt, A⟩ := r
+      simp only [h1] at hs
+      split at hs
+      · cases hs
+      rename_i hguard
+      cases h2 : specRunF last E X (idx + 1) fr' del' nl' xs with
+      | none => simp [h2] at hs
+      | some r2 =>
+        obtain ⟨outr, nlr⟩ := r2
+        simp only [h2, Option.some.injEq, Prod.mk.injEq] at hs
+        obtain ⟨hs, _⟩ := hs
+        have hguard' : fr' ≠ [] ∨ xs = [] := by
+          by_cases hx : xs = []
+          · exact .inr hx
+          · left; intro e; subst e
+            have : xs.isEmpty = false := by cases xs with | nil => exact absurd rfl hx | cons _ _ => rfl
+            simp [this] at hguard
+        have hl' : idx + 1 + xs.length ≤ last + 1 := by simp only [List.length_cons] at hl; omega
+        have hna' : ∀ y ∈ xs, y.blockAlt = none := fun y hy => hna y (List.mem_cons_of_mem _ hy)
+        have inX : ∀ t ∈ x.before, t ∈ out := by intro t ht; rw [← hs]; simp [ht]
+        have inB : ∀ t ∈ B, t ∈ out := by intro t ht; rw [← hs]; simp [ht]
+        have inR : ∀ t ∈ outr, t ∈ out := by intro t ht; rw [← hs]; simp [ht]
+        have inA : xs ≠ [] → ∀ t ∈ A, t ∈ out := by
+          intro hx t ht
+          have hlt : ¬ idx ≥ last := by
+            have : xs.length ≥ 1 := List.length_pos_iff.mpr hx
+            simp only [List.length_cons] at hl; omega
+          rw [← hs]; simp [hlt, ht]
+        -- more than the function's own frame is open: this is not the last instruction
+        have hxs_of : fr'.length ≥ 1 → xs ≠ [] := by
+          intro hge e; subst e
+          simp only [specRunF] at h2
+          split at h2
+          · rename_i he
+            have : fr' = [] := List.isEmpty_iff.mp he
+            rw [this] at hge; simp at hge
+          · cases h2
+        cases hf : flaggedBranch x with
+        | true =>
+          -- a branch with a semantic-after probe
+          have hbr : x.kind.isBranching = true := by simp only [flaggedBranch, Bool.and_eq_true] at hf; exact hf.1
+          have hfe : fr.isEmpty = false := by cases fr with | nil => exact absurd rfl hfr' | cons _ _ => rfl
+          simp only [specStepF, hf, hfe, if_true, Bool.false_eq_true, if_false, Option.some.injEq, Prod.mk.injEq] at h1
+          obtain ⟨rfl, rfl, rfl, rfl, rfl, rfl⟩ := h1
+          obtain ⟨p1, p2, p3, p4⟩ := parkAllF_spec (fr.length - 1) (x.semAfter, nl) (branchTargets x.kind) fr (by omega)
+          obtain ⟨k1, k2, k3⟩ := ih (idx + 1) _ (nl + 1) outr nlr h2 hna' hl' hguard'
+          rw [p1] at k1 k2 k3
+          have hxs : xs ≠ [] := hxs_of (by rw [p1]; exact hn1)
+          refine ⟨fun k hk t ht => inR t (k1 k hk t (by rw [(p2 k).1, (p2 k).2.1]; exact ht)), fun k hk1 hk t ht => ?_, ?_, ?_⟩
+          · apply inR t
+            apply k2 k hk1 hk t
+            rcases ht with ht | ⟨e, he, ht⟩
+            · left; rw [(p2 k).2.2]; exact ht
+            · right; exact ⟨e, p3 k e he, ht⟩
+          · refine ⟨inX, fun hb => ?_, fun _ hc t ht => ?_⟩
+            · rw [branching_not_blockStyle hbr] at hb; cases hb
+            · rcases hc with ⟨n, hn⟩ | ⟨d, hd, hlt⟩
+              · exact inA hxs t (by simp [hn, ht])
+              · have hkey : 1 ≤ fr.length - 1 - d ∧ fr.length - 1 - d < fr.length := by omega
+                exact inR t (k2 _ hkey.1 hkey.2 t (.inr ⟨(x.semAfter, nl), p4 d hd, ht⟩))
+          · have hd : depthNext x.kind (fr.length - 1) = fr.length - 1 := by
+              cases hk : x.kind <;> simp_all [depthNext, Kind.isBranching]
+            rw [hd]
+            exact KeptAll_mono xs _ outr out k3 inR
+        | false =>
+          simp only [specStepF, hf, Bool.false_eq_true, if_false, specStepA_plain fr x hbax, Option.map_map, Option.map_eq_some_iff] at h1
+          obtain ⟨r, hr, he⟩ := h1
+          obtain ⟨r1, r2, r3⟩ := r
+          simp only [Function.comp, Prod.mk.injEq] at he
+          obtain ⟨rfl, rfl, rfl, rfl, rfl, rfl⟩ := he
+          obtain ⟨k1, k2, k3⟩ := ih (idx + 1) r1 nl outr nlr h2 hna' hl' hguard'
+          have nof : flaggedBranch x = true → False := by rw [hf]; intro h; cases h
+          cases hk : x.kind with
+          | block | loop | if_ =>
+            all_goals
+              simp only [specStep, hk, Option.some.injEq, Prod.mk.injEq] at hr
+              obtain ⟨rfl, rfl, rfl⟩ := hr
+              have hxs : xs ≠ [] := hxs_of (by simp)
+              simp only [List.length_cons] at k1 k2 k3
+              have hsame : ∀ (f : Fr) k, k < fr.length → frAt (f :: fr) k = frAt fr k := fun f k hk' => frAt_cons_lt f fr k hk'
+              refine ⟨fun k hk' t ht => inR t (k1 k (by omega) t (by rw [hsame _ k hk']; exact ht)),
+                fun k hk1 hk' t ht => inR t (k2 k hk1 (by omega) t (by rw [hsame _ k hk']; exact ht)), ?_, ?_⟩
+              · refine ⟨inX, fun _ t ht => ?_, fun h => (nof h).elim⟩
+                rcases ht with ht | ht | ht
+                · exact inA hxs t ht
+                · exact inR t (k1 fr.length (by omega) t (by rw [frAt_cons_top]; simp [ht]))
+                · exact inR t (k2 fr.length hn1 (by omega) t (by rw [frAt_cons_top]; simp [ht]))
+              · have hd : depthNext x.kind (fr.length - 1) = fr.length + 1 - 1 := by simp [hk, depthNext]; omega
+                rw [hd]
+                exact KeptAll_mono xs _ outr out k3 inR
+          | else_ =>
+            cases fr with
+            | nil => exact absurd rfl hfr'
+            | cons top rfr =>
+              cases rfr with
+              | nil => simp [specStep, hk] at hr
+              | cons below rest =>
+                simp only [specStep, hk, Option.some.injEq, Prod.mk.injEq] at hr
+                obtain ⟨rfl, rfl, rfl⟩ := hr
+                have hxs : xs ≠ [] := hxs_of (by simp)
+                simp only [List.length_cons] at k1 k2 k3 ⊢
+                have htop : ∀ f : Fr, frAt (f :: below :: rest) (rest.length + 1) = f := fun f => by
+                  have := frAt_cons_top f (below :: rest); simpa using this
+                have hsame : ∀ (f g : Fr) k, k < rest.length + 1 → frAt (f :: below :: rest) k = frAt (g :: below :: rest) k := by
+                  intro f g k hk'
+                  rw [frAt_cons_lt f (below :: rest) k (by simpa using hk'), frAt_cons_lt g (below :: rest) k (by simpa using hk')]
+                refine ⟨fun k hk' t ht => ?_, fun k hk1 hk' t ht => ?_, ?_, ?_⟩
+                · by_cases hkk : k = rest.length + 1
+                  · subst hkk
+                    rw [htop] at ht
+                    rcases ht with ht | ht
+                    · exact inB t ht
+                    · exact inR t (k1 _ (by omega) t (by rw [htop]; simp [ht]))
+                  · exact inR t (k1 k hk' t (by rw [hsame _ top k (by omega)]; exact ht))
+                · by_cases hkk : k = rest.length + 1
+                  · subst hkk
+                    rw [htop] at ht
+                    apply inR t
+                    apply k2 _ hk1 (by omega) t
+                    rw [htop]
+                    rcases ht with ht | ht
+                    · left; simp [ht]
+                    · right; exact ht
+                  · exact inR t (k2 k hk1 hk' t (by rw [hsame _ top k (by omega)]; exact ht))
+                · refine ⟨inX, fun _ t ht => ?_, fun h => (nof h).elim⟩
+                  rcases ht with ht | ht | ht
+                  · exact inA hxs t ht
+                  · exact inR t (k1 (rest.length + 1) (by omega) t (by rw [htop]; simp [ht]))
+                  · exact inR t (k2 (rest.length + 1) (by omega) (by omega) t (by rw [htop]; simp [ht]))
+                · have hd : depthNext x.kind (rest.length + 1 + 1 - 1) = rest.length + 1 + 1 - 1 := by simp [hk, depthNext]
+                  rw [hd]
+                  exact KeptAll_mono xs _ outr out k3 inR
+          | end_ =>
+            cases fr with
+            | nil => exact absurd rfl hfr'
+            | cons top rest =>
+              simp only [specStep, hk, Option.some.injEq, Prod.mk.injEq] at hr
+              obtain ⟨rfl, rfl, rfl⟩ := hr
+              simp only [List.length_cons] at ⊢
+              have htop : frAt (top :: rest) rest.length = top := frAt_cons_top top rest
+              have hsame : ∀ k, k < rest.length → frAt (top :: rest) k = frAt rest k := fun k hk' => frAt_cons_lt top rest k hk'
+              refine ⟨fun k hk' t ht => ?_, fun k hk1 hk' t ht => ?_, ?_, ?_⟩
+              · by_cases hkk : k = rest.length
+                · subst hkk; rw [htop] at ht
+                  exact inB t (by rcases ht with ht | ht <;> simp [ht])
+                · exact inR t (k1 k (by omega) t (by rw [← hsame k (by omega)]; exact ht))
+              · by_cases hkk : k = rest.length
+                · subst hkk; rw [htop] at ht
+                  have hxs : xs ≠ [] := hxs_of (by omega)
+                  exact inA hxs t (mem_endAfter top t ht)
+                · exact inR t (k2 k hk1 (by omega) t (by rw [← hsame k (by omega)]; exact ht))
+              · exact ⟨inX, fun hb => by simp [hk, Kind.isBlockStyle] at hb, fun h => (nof h).elim⟩
+              · have hd : depthNext x.kind (rest.length + 1 - 1) = rest.length - 1 := by simp [hk, depthNext]
+                rw [hd]
+                exact KeptAll_mono xs _ outr out k3 inR
+          | br _ | brIf _ | brTable _ _ | exitLike | other =>
+            all_goals
+              simp only [specStep, hk, Option.some.injEq, Prod.mk.injEq] at hr
+              obtain ⟨rfl, rfl, rfl⟩ := hr
+              refine ⟨fun k hk' t ht => inR t (k1 k hk' t ht), fun k hk1 hk' t ht => inR t (k2 k hk1 hk' t ht), ?_, ?_⟩
+              · exact ⟨inX, fun hb => by simp [hk, Kind.isBlockStyle] at hb, fun h => (nof h).elim⟩
+              · have hd : depthNext x.kind (fr.length - 1) = fr.length - 1 := by simp [hk, depthNext]
+                rw [hd]
+                exact KeptAll_mono xs _ outr out k3 inR
+
+/-- **Nothing is lost, for any plan without block alternates** — `before` code; block-entry, block-exit and semantic-after code on
+    constructs; semantic-after code on branches, the only exception being an unconditional branch (or `br_table`) all of whose targets
+    are the function's own label (finding F15); together with `lower_keeps_fn` (function entry / exit code): the positive half of C22
+    for every such plan. -/
+theorem lower_keeps_all_F (f : Func) (hsp : f.hasSpecial = true) (hp : ∀ x ∈ f.body, PlainF x) (hna : ∀ x ∈ f.body, x.blockAlt = none)
+    (out : List Tok) (nlf : Nat)
+    (hs : specRunF (f.body.length - 1) (entryToks f) f.exit 0 [{}] none f.nlocals f.body = some (out, nlf)) :
+    KeptAll 0 f.body (lower f).1 := by
+  rw [lower_eq_specF f hsp hp out nlf hs]
+  exact (specRunF_keeps (f.body.length - 1) (entryToks f) f.exit f.body 0 [{}] f.nlocals out nlf hs hna (by omega) (.inl (by simp))).2.2
+
 end Orca.Lower
